@@ -66,7 +66,13 @@ def main():
     try:
         sh(f"rsync -a --exclude .git /repo/ {repo}/")
         os.makedirs(os.path.join(repo, "seed_out"), exist_ok=True)
-        shutil.copy(demo, os.path.join(repo, "seed_out", "demo.py"))
+        # demonstrations written in a scratch worktree may pin that worktree's path: point them at this copy
+        with open(demo, encoding="utf-8") as f:
+            demo_text = f.read()
+        for wt in (f"/tmp/seed/{pid}", os.path.dirname(os.path.abspath(src))):
+            demo_text = demo_text.replace(wt + "/", repo + "/").replace(wt, repo)
+        with open(os.path.join(repo, "seed_out", "demo.py"), "w", encoding="utf-8") as f:
+            f.write(demo_text)
         env = dict(os.environ, PYTHONPATH=repo, PYTHONDONTWRITEBYTECODE="1")
         env.pop("VERIF_REPO", None)
         rc0, out0 = sh(f"{PY} seed_out/demo.py", cwd=repo, env=env, timeout=900)
@@ -106,15 +112,16 @@ def main():
         meta["caught_by"] = sorted(c for c, r in meta["checks"].items() if r["exit"] == 1)
         dst = os.path.join(HERE, "seeded", a.name or pid)
         os.makedirs(dst, exist_ok=True)
-        shutil.copy(patch, os.path.join(dst, "patch.diff"))
-        shutil.copy(demo, os.path.join(dst, "demo.py"))
-        if os.path.exists(os.path.join(src, "notes.md")):
-            shutil.copy(os.path.join(src, "notes.md"), os.path.join(dst, "notes.md"))
+        if os.path.abspath(src) != os.path.abspath(dst):
+            shutil.copy(patch, os.path.join(dst, "patch.diff"))
+            shutil.copy(demo, os.path.join(dst, "demo.py"))
+            if os.path.exists(os.path.join(src, "notes.md")):
+                shutil.copy(os.path.join(src, "notes.md"), os.path.join(dst, "notes.md"))
         old = {}
         mp = os.path.join(dst, "meta.json")
         if os.path.exists(mp):
             old = json.load(open(mp))
-        for k in ("breaks", "needs_to_manifest", "kept"):
+        for k in ("breaks", "needs_to_manifest", "kept", "produced_by", "what_i_ran", "missed_by_first_version_of_check"):
             if k in old:
                 meta[k] = old[k]
         json.dump(meta, open(mp, "w"), indent=1)
